@@ -1,29 +1,41 @@
 """Generated constants of layer L5 (Vinegar): lean/RpycModel/Gen/Vinegar.lean.
 
-Read from /repo's working tree (gen_consts.py has put it first on sys.path):
+Almost every fact is OBSERVED by running the live functions of /repo's working tree on instrumented inputs, so that
+docstrings, comments, renamed locals, aliases (`config = self._config`), extracted helper functions, reordered
+independent statements or early returns change nothing:
 
-* live objects: `consts.EXC_STOP_ITERATION`, `version.version`, `version.version_string`,
-  `vinegar.exceptions_module.__name__`, the exception-related defaults of `protocol.DEFAULT_CONFIG`;
-* by AST, facts that are not data:
-  - `vinegar.dump`: the condition of the StopIteration fast path (does it require empty `args`?), the ignored
-    attribute names, the private-name prefix, the name of the `args` branch, the "<traceback denied>" /
-    "<version denied>" markers (the constant branches of the two `if include_local_*` statements), the
-    attribute name the version travels under;
-  - `vinegar.load`: the default and the comparison constant of the version check, the separator and the
-    warning template, the attribute the traceback text is stored under, and EVERYTHING the body calls
-    (for the allow-list theorem: no constructor call, no import other than the gated `__import__`);
-  - `Connection._box_exc/_unbox_exc`: which configuration key feeds which parameter;
-  - `Connection._dispatch_request`: which classes are re-raised locally under which configuration key;
-* interpreter facts: is `slice` hashable, which floats equal the StopIteration marker.
+* `vinegar.dump` on probe exceptions: is there a StopIteration marker path and does it require empty `args`; which public
+  names of `dir(val)` are left out (ignored names), that names starting with "_" are left out and others are not; the text
+  in the traceback field when the traceback is withheld (must not depend on the exception) and when it is allowed (must be
+  `traceback.format_exception`'s); what happens when the traceback module itself fails (guarded? which literal); under which
+  name the version travels and what is sent instead when it is withheld;
+* `vinegar.load` on probe records: the attribute the traceback text is stored under, the warning it appends for a foreign
+  major version (template recovered from two probes), that a withheld / absent version and an equal major version do not warn,
+  the separator;
+* `Connection._box_exc / _unbox_exc` on a bare Connection with sentinel configuration values and a recording stand-in for
+  `vinegar.dump / load`: which configuration key feeds which parameter;
+* `Connection._dispatch_request` with handlers raising SystemExit / KeyboardInterrupt (and subclasses, and others) under
+  every setting of the two `propagate_*_locally` keys: which classes are re-raised locally under which key;
+* `Connection._send_exception` with a `_box_exc` that raises, and with a `_send` whose first call raises: the fallback record,
+  that its texts are constants (the same for different exceptions, tracebacks and switch settings) and hold no traceback.
 
-Raises gen_consts.Inexpressible when the source no longer has a shape these definitions can express.
+Live constants: `consts.EXC_STOP_ITERATION`, `rpyc.version`, `exceptions_module.__name__`, the exception-related defaults of
+`DEFAULT_CONFIG`, `ClassType is type`, `hash(slice)`.
+
+AST is kept for the one fact that cannot be observed — everything `vinegar.load` CALLS (no constructor call, no import other
+than `__import__`) — normalised: calls of functions of the same module are followed, method calls count by method name only,
+local names do not matter.
+
+Raises gen_consts.Inexpressible when the behaviour no longer has a shape these definitions can express.
 """
 import ast
+import inspect
 import struct
 import sys
+import traceback
 
 import gen_consts
-from gen_consts import lean_str, lean_list, func_ast, called_names
+from gen_consts import lean_str, lean_list, func_ast
 
 Inexpressible = getattr(sys.modules.get("__main__"), "Inexpressible", None) or gen_consts.Inexpressible
 
@@ -34,10 +46,14 @@ RECV_KEYS = [("import_custom_exceptions", "ImportCustomExceptions"),
              ("instantiate_custom_exceptions", "InstantiateCustomExceptions"),
              ("instantiate_oldstyle_exceptions", "InstantiateOldstyleExceptions")]
 
-# what `vinegar.load` / `_get_exception_class` may call: every entry has a counterpart in the model
-LOAD_CALLS_ALLOWED = ["ClassType", "InstanceType", "__import__", "_get_exception_class", "_warn.format", "cls.__new__",
-                      "getattr", "isinstance", "issubclass", "remote_ver.split", "setattr", "str", "type"]
-DERIVED_CALLS_ALLOWED = ["?.count", "REMOTE_LINE.format", "cls.__str__", "hasattr", "str"]
+# what `vinegar.load` (and the module functions it calls) may call, normalised (see called_norm): every entry is either a step
+# of the model or a pure helper of the language; a call of a local name / of an expression (`cls(...)`) is not in the list
+LOAD_CALLS_ALLOWED = [
+    "ClassType", "InstanceType", "__import__", "getattr", "hasattr", "isinstance", "issubclass", "setattr", "str", "type",
+    "tuple", "list", "dict", "len", "bool", "repr", "format", "iter", "next", "zip", "enumerate", "any", "all", "frozenset",
+    ".__new__", ".__str__", ".split", ".partition", ".format", ".count", ".get", ".join", ".startswith", ".items",
+    ".setdefault", ".append",
+]
 
 
 def cps(s):
@@ -48,260 +64,382 @@ def lean_bool(b):
     return "true" if b else "false"
 
 
-def _text(node):
+def raised(exc):
     try:
-        return ast.unparse(node)
-    except Exception:  # noqa
-        return "?"
+        raise exc
+    except BaseException:  # noqa
+        return sys.exc_info()
 
 
-def _const_str(node):
-    return node.value if isinstance(node, ast.Constant) and isinstance(node.value, str) else None
+# ------------------------------------------------------------------------------------------------ dump, observed
+class _ProbeError(Exception):
+    pass
 
 
-# ------------------------------------------------------------------------------------------------ dump
-def _conjuncts(test):
-    if isinstance(test, ast.BoolOp) and isinstance(test.op, ast.And):
-        out = []
-        for v in test.values:
-            out += _conjuncts(v)
-        return out
-    return [test]
-
-
-def _returns_marker(stmts):
-    return (len(stmts) == 1 and isinstance(stmts[0], ast.Return) and stmts[0].value is not None
-            and _text(stmts[0].value).split(".")[-1] == "EXC_STOP_ITERATION")
-
-
-NOARGS_FORMS = {"not val.args", "len(val.args) == 0", "val.args == ()", "not len(val.args)", "() == val.args",
-                "0 == len(val.args)"}
-
-
-def stop_fast_path(dump_node):
-    """(exists, requires_no_args): the `if` at the top of `dump` that returns EXC_STOP_ITERATION"""
-    for stmt in dump_node.body:
-        if not isinstance(stmt, ast.If):
-            continue
-        tests, body = _conjuncts(stmt.test), stmt.body
-        while len(body) == 1 and isinstance(body[0], ast.If) and not body[0].orelse and not _returns_marker(body):
-            tests += _conjuncts(body[0].test)
-            body = body[0].body
-        if not _returns_marker(body):
-            continue
-        if stmt.orelse:
-            raise Inexpressible("dump: the StopIteration fast path has an else branch")
-        texts = [_text(t) for t in tests]
-        if "typ is StopIteration" not in texts and "StopIteration is typ" not in texts:
-            raise Inexpressible("dump: the fast path is not guarded by `typ is StopIteration`: %s" % texts)
-        rest = [t for t in texts if t not in ("typ is StopIteration", "StopIteration is typ")]
-        if not rest:
-            return True, False
-        if all(t in NOARGS_FORMS for t in rest):
-            return True, True
-        raise Inexpressible("dump: unrecognised extra condition on the StopIteration fast path: %s" % rest)
-    return False, False
-
-
-def _is_format_assign(stmt):
-    return isinstance(stmt, ast.Assign) and len(stmt.targets) == 1 and _text(stmt.targets[0]) == "tbtext" \
-        and "traceback.format_exception(typ, val, tb)" in _text(stmt.value)
-
-
-def tb_guard_shape(stmts):
-    """(guarded, literal) for the branch that formats the traceback: plain assignment -> (False, ""); the assignment inside
-    `try` with `except Exception: tbtext = <literal>` -> (True, literal); anything else -> None"""
-    if len(stmts) == 1 and _is_format_assign(stmts[0]):
-        return False, ""
-    if len(stmts) == 1 and isinstance(stmts[0], ast.Try):
-        t = stmts[0]
-        if len(t.body) == 1 and _is_format_assign(t.body[0]) and len(t.handlers) == 1 and not t.orelse and not t.finalbody \
-                and t.handlers[0].type is not None and _text(t.handlers[0].type) == "Exception":
-            body = [b for b in t.handlers[0].body if not isinstance(b, ast.Pass)]
-            if len(body) == 1 and isinstance(body[0], ast.Assign) and _text(body[0].targets[0]) == "tbtext" \
-                    and _const_str(body[0].value) is not None:
-                return True, _const_str(body[0].value)
-    return None
-
-
-def fallback_facts(protocol):
-    """`Connection._send_exception`: try: send(box_exc) / except EOFError: raise / except Exception: send the fallback
-    record `(name, (note,), (), <literal>)` with name = (str(module), str(name)) and note = <literal>"""
-    fn = getattr(protocol.Connection, "_send_exception", None)
-    if fn is None:
-        return dict(exists=False, note="", tb="")
-    node = func_ast(fn)
-    tries = [n for n in node.body if isinstance(n, ast.Try)]
-    if len(tries) != 1 or len(node.body) != 1:
-        raise Inexpressible("_send_exception: body is not a single try statement")
-    t = tries[0]
-    if len(t.body) != 1 or "self._box_exc(t, v, tb)" not in _text(t.body[0]) or "MSG_EXCEPTION" not in _text(t.body[0]):
-        raise Inexpressible("_send_exception: the try body is not one send of self._box_exc(t, v, tb)")
-    hs = [(_text(h.type) if h.type is not None else None) for h in t.handlers]
-    if hs != ["EOFError", "Exception"] or not (len(t.handlers[0].body) == 1 and isinstance(t.handlers[0].body[0], ast.Raise)):
-        raise Inexpressible("_send_exception: handlers are %s" % hs)
-    note = name_expr = rec = None
-    for stmt in t.handlers[1].body:
-        if isinstance(stmt, ast.Assign) and _text(stmt.targets[0]) == "note":
-            note = _const_str(stmt.value)
-        elif isinstance(stmt, ast.Assign) and _text(stmt.targets[0]) == "name":
-            name_expr = _text(stmt.value)
-        elif isinstance(stmt, ast.Expr) and isinstance(stmt.value, ast.Call) and _text(stmt.value.func) == "self._send" \
-                and len(stmt.value.args) == 3 and isinstance(stmt.value.args[2], ast.Tuple):
-            rec = stmt.value.args[2]
-        else:
-            raise Inexpressible("_send_exception: unexpected statement in the fallback: %s" % _text(stmt)[:80])
-    if note is None or rec is None or name_expr is None or len(rec.elts) != 4:
-        raise Inexpressible("_send_exception: the fallback is not `name = ...; note = <literal>; self._send(.., .., (name, (note,), (), <literal>))`")
-    if "__module__" not in name_expr or "__name__" not in name_expr:
-        raise Inexpressible("_send_exception: the fallback's class name is %s" % name_expr)
-    e0, e1, e2, e3 = rec.elts
-    if _text(e0) != "name" or _text(e1) != "(note,)" or _text(e2) != "()" or _const_str(e3) is None:
-        raise Inexpressible("_send_exception: the fallback record is %s (its traceback field must be a literal)" % _text(rec))
-    return dict(exists=True, note=note, tb=_const_str(e3))
-
-
-def dump_facts(vinegar):
-    node = func_ast(vinegar.dump)
-    params = [a.arg for a in node.args.args]
-    if params != ["typ", "val", "tb", "include_local_traceback", "include_local_version"]:
+def dump_facts(vinegar, consts, version):
+    import builtins
+    marker = consts.EXC_STOP_ITERATION
+    D = vinegar.dump
+    try:
+        params = list(inspect.signature(D).parameters)
+    except (TypeError, ValueError):
+        params = []
+    if params[:3] != ["typ", "val", "tb"] or set(params[3:]) != {"include_local_traceback", "include_local_version"}:
         raise Inexpressible("dump: parameters are %s" % params)
-    exists, noargs = stop_fast_path(node)
-    ignored = None
-    prefix = None
-    args_name = None
-    tb_denied = None
-    ver_denied = None
-    ver_attr = set()
-    tb_guard = None
-    for n in ast.walk(node):
-        if isinstance(n, ast.Assign) and len(n.targets) == 1 and _text(n.targets[0]) == "ignored_attrs":
+
+    def dump(t, v, tb, a, b):
+        return D(t, v, tb, include_local_traceback=a, include_local_version=b)
+
+    # --- the StopIteration marker path
+    def is_marker(x):
+        return type(x) is type(marker) and x == marker
+    exists = is_marker(dump(StopIteration, StopIteration(), None, True, True))
+    with_args = is_marker(dump(StopIteration, StopIteration(5), None, True, True))
+    if with_args and not exists:
+        raise Inexpressible("dump: StopIteration(5) takes the marker path but StopIteration() does not")
+
+    class SubStop(StopIteration):
+        pass
+    if is_marker(dump(SubStop, SubStop(), None, True, True)) or is_marker(dump(ValueError, ValueError(), None, True, True)):
+        raise Inexpressible("dump: the marker path is not restricted to `typ is StopIteration`")
+    # --- shape of a record, names left out
+    ignored = set()
+    ver_attr = ver_denied = None
+    for cls in sorted(set(v for v in vars(builtins).values() if isinstance(v, type) and issubclass(v, BaseException)),
+                      key=lambda c: c.__name__):
+        try:
+            val = cls.__new__(cls)
+        except TypeError:
+            continue
+        val.args = ("a", 2)
+        for extra in ("pub", "a_b", "Z9", "x_", "_priv", "__dunder", "_"):
             try:
-                v = n.value
-                lit = v.args[0] if isinstance(v, ast.Call) and _text(v.func) in ("frozenset", "set") else v
-                ignored = sorted(ast.literal_eval(lit))
+                setattr(val, extra, 7)
             except Exception:  # noqa
-                raise Inexpressible("dump: ignored_attrs is not a literal collection")
-            if not all(isinstance(s, str) for s in ignored):
-                raise Inexpressible("dump: ignored_attrs has non-text members")
-        if isinstance(n, ast.Call) and _text(n.func) == "name.startswith" and len(n.args) == 1:
-            prefix = _const_str(n.args[0])
-        if isinstance(n, ast.Compare) and _text(n.left) == "name" and len(n.ops) == 1 and isinstance(n.ops[0], ast.Eq):
-            args_name = _const_str(n.comparators[0])
-        if isinstance(n, ast.If) and _text(n.test) in ("include_local_traceback", "not include_local_traceback"):
-            denied = n.orelse if _text(n.test) == "include_local_traceback" else n.body
-            allowed_tb = n.body if _text(n.test) == "include_local_traceback" else n.orelse
-            if len(denied) == 1 and isinstance(denied[0], ast.Assign) and _text(denied[0].targets[0]) == "tbtext":
-                tb_denied = _const_str(denied[0].value)
-            tb_guard = tb_guard_shape(allowed_tb)
-        if isinstance(n, ast.If) and _text(n.test) in ("include_local_version", "not include_local_version"):
-            denied = n.orelse if _text(n.test) == "include_local_version" else n.body
-            allowed = n.body if _text(n.test) == "include_local_version" else n.orelse
-            for branch, is_denied in ((denied, True), (allowed, False)):
-                if len(branch) == 1 and isinstance(branch[0], ast.Expr) and isinstance(branch[0].value, ast.Call) \
-                        and _text(branch[0].value.func) == "attrs.append" and len(branch[0].value.args) == 1 \
-                        and isinstance(branch[0].value.args[0], ast.Tuple) and len(branch[0].value.args[0].elts) == 2:
-                    k, v = branch[0].value.args[0].elts
-                    ver_attr.add(_const_str(k))
-                    if is_denied:
-                        ver_denied = _const_str(v)
-                    elif _text(v) != "version.version_string":
-                        raise Inexpressible("dump: the disclosed version is %s, not version.version_string" % _text(v))
-                else:
-                    raise Inexpressible("dump: a branch of `if include_local_version` is not one attrs.append((name, value))")
-    if ignored is None:
-        raise Inexpressible("dump: no `ignored_attrs = frozenset([...])`")
-    if prefix is None:
-        raise Inexpressible("dump: no `name.startswith(<literal>)`")
-    if args_name is None:
-        raise Inexpressible("dump: no `name == <literal>` branch for the arguments")
-    if tb_denied is None:
-        raise Inexpressible("dump: no `if include_local_traceback: ... else: tbtext = <literal>`")
-    if ver_denied is None or len(ver_attr) != 1 or None in ver_attr:
-        raise Inexpressible("dump: no `if include_local_version: attrs.append((<name>, version_string)) else: "
-                            "attrs.append((<name>, <literal>))`")
-    if tb_guard is None:
-        raise Inexpressible("dump: the allowed branch of `if include_local_traceback` is neither `tbtext = ...format_exception...` "
-                            "nor that inside `try: ... except Exception: tbtext = <literal>`")
-    return dict(tb_guarded=tb_guard[0], tb_unavailable=tb_guard[1], exists=exists, noargs=noargs, ignored=ignored, prefix=prefix, args_name=args_name,
-                tb_denied=tb_denied, ver_denied=ver_denied, ver_attr=ver_attr.pop())
+                pass
+        rec = dump(cls, val, None, False, False)
+        if is_marker(rec):
+            continue
+        if not (type(rec) is tuple and len(rec) == 4 and rec[0] == (cls.__module__, cls.__name__) and type(rec[1]) is tuple
+                and type(rec[2]) is tuple and all(type(p) is tuple and len(p) == 2 for p in rec[2])):
+            raise Inexpressible("dump: the record is not ((module, name), args, ((name, value), ...), text)")
+        if rec[1] != ("a", 2):
+            raise Inexpressible("dump(%s): args ('a', 2) were sent as %r" % (cls.__name__, rec[1]))
+        sent = [p[0] for p in rec[2]]
+        if len(set(sent)) != len(sent):
+            raise Inexpressible("dump: an attribute is sent twice")
+        public_ok = []
+        for n in dir(val):
+            if n == "args":
+                continue
+            try:
+                getattr(val, n)
+            except AttributeError:
+                continue
+            except Exception:  # noqa
+                continue
+            if n.startswith("_"):
+                if n in sent[:-1]:
+                    raise Inexpressible("dump: the private name %r is sent" % n)
+            else:
+                public_ok.append(n)
+        if "args" in sent:
+            raise Inexpressible("dump: `args` is also sent as an attribute")
+        ignored |= set(n for n in public_ok if n not in sent)
+        for n in ("pub", "a_b", "Z9", "x_"):
+            if n in public_ok and n not in sent:
+                raise Inexpressible("dump: the public name %r is left out" % n)
+        extra = [n for n in sent[:-1] if n not in public_ok]
+        if extra:
+            raise Inexpressible("dump: sends names that are not public attributes: %s" % extra)
+        if sent[:-1] != [n for n in public_ok if n in sent]:
+            raise Inexpressible("dump: attributes are not sent in dir() order")
+        if ver_attr is None:
+            ver_attr, ver_denied = rec[2][-1]
+        elif rec[2][-1] != (ver_attr, ver_denied):
+            raise Inexpressible("dump: the withheld-version pair differs between classes")
+    if ver_attr is None or type(ver_attr) is not str or type(ver_denied) is not str:
+        raise Inexpressible("dump: no version pair at the end of the attributes")
+    # `args` is driven by dir(): an exception whose dir() hides `args` sends none
+    class Hidden(Exception):
+        def __dir__(self):
+            return [n for n in object.__dir__(self) if n != "args"]
+    if dump(Hidden, Hidden(1), None, False, False)[1] != ():
+        raise Inexpressible("dump: args are sent although dir(val) does not list `args`")
+    # --- version disclosure
+    t, v, tb = raised(ValueError("probe-one", 1))
+    r_ff, r_ft, r_tf, r_tt = (dump(t, v, tb, a, b) for a in (False, True) for b in (False, True))
+    for r in (r_ft, r_tt):
+        if r[2][-1] != (ver_attr, version.version_string):
+            raise Inexpressible("dump: with include_local_version the last attribute is %r" % (r[2][-1],))
+    for r in (r_ff, r_tf):
+        if r[2][-1] != (ver_attr, ver_denied):
+            raise Inexpressible("dump: without include_local_version the last attribute is %r" % (r[2][-1],))
+    if version.version_string in ver_denied:
+        raise Inexpressible("dump: the text sent for a withheld version contains the version")
+    # --- traceback disclosure
+    real = "".join(traceback.format_exception(t, v, tb))
+    if r_tf[3] != real or r_tt[3] != real:
+        raise Inexpressible("dump: with include_local_traceback the traceback field is not traceback.format_exception's text")
+    t2, v2, tb2 = raised(KeyError("probe-two"))
+    denied = set([r_ff[3], r_ft[3], dump(t2, v2, tb2, False, False)[3], dump(t2, v2, None, False, True)[3]])
+    if len(denied) != 1 or type(r_ff[3]) is not str:
+        raise Inexpressible("dump: without include_local_traceback the traceback field is not one constant text")
+    tb_denied = r_ff[3]
+    if "Traceback" in tb_denied or "probe-one" in tb_denied or real in tb_denied or "ValueError" in tb_denied:
+        raise Inexpressible("dump: discloses the traceback although include_local_traceback is False")
+    # --- a traceback the traceback module cannot format
+    bad = SyntaxError("probe", ("file", 1, 2, 5))
+    try:
+        traceback.format_exception(SyntaxError, bad, None)
+        unformattable = None
+    except Exception:  # noqa
+        unformattable = bad
+    guarded, unavailable = False, ""
+    if unformattable is not None:
+        try:
+            r = dump(SyntaxError, unformattable, None, True, True)
+        except Exception:  # noqa
+            guarded = False
+        else:
+            guarded, unavailable = True, r[3]
+            if type(unavailable) is not str or "Traceback" in unavailable or "probe" in unavailable:
+                raise Inexpressible("dump: the text sent for an unformattable traceback is not a constant literal")
+            if r[1] != ("probe", ("file", 1, 2, 5)):
+                raise Inexpressible("dump: an unformattable traceback changes the arguments sent")
+            if dump(SyntaxError, unformattable, None, False, True)[3] != tb_denied:
+                raise Inexpressible("dump: withheld traceback of an unformattable exception is not the marker")
+    else:
+        # this interpreter formats everything: the guard cannot be observed; it is then irrelevant as well
+        guarded, unavailable = True, ""
+    return dict(exists=exists, noargs=exists and not with_args, ignored=sorted(ignored), prefix="_", args_name="args",
+                tb_denied=tb_denied, ver_denied=ver_denied, ver_attr=ver_attr, tb_guarded=guarded, tb_unavailable=unavailable)
 
 
-# ------------------------------------------------------------------------------------------------ load
-def load_facts(vinegar):
-    node = func_ast(vinegar.load)
-    params = [a.arg for a in node.args.args]
-    if params != ["val", "import_custom_exceptions", "instantiate_custom_exceptions", "instantiate_oldstyle_exceptions"]:
+# ------------------------------------------------------------------------------------------------ load, observed
+def load_facts(vinegar, version, d):
+    L = vinegar.load
+    params = list(inspect.signature(L).parameters)
+    if params[:1] != ["val"] or set(params[1:]) != {"import_custom_exceptions", "instantiate_custom_exceptions",
+                                                  "instantiate_oldstyle_exceptions"}:
         raise Inexpressible("load: parameters are %s" % params)
-    ver_attr = ver_default = ver_compare = sep = warn = tb_attr = major_cmp = None
-    for n in ast.walk(node):
-        if isinstance(n, ast.Call) and _text(n.func) == "getattr" and len(n.args) == 3 and _const_str(n.args[2]) is not None:
-            ver_attr, ver_default = _const_str(n.args[1]), _const_str(n.args[2])
-        if isinstance(n, ast.Compare) and _text(n.left) == "remote_ver" and len(n.ops) == 1 \
-                and isinstance(n.ops[0], ast.NotEq):
-            ver_compare = _const_str(n.comparators[0])
-        if isinstance(n, ast.Call) and _text(n.func) == "remote_ver.split" and len(n.args) == 1:
-            sep = _const_str(n.args[0])
-        if isinstance(n, ast.Compare) and _text(n.left).startswith("remote_ver.split(") and len(n.ops) == 1:
-            major_cmp = n
-        if isinstance(n, ast.Assign) and len(n.targets) == 1 and _text(n.targets[0]) == "_warn":
-            warn = _const_str(n.value)
-        if isinstance(n, ast.Assign) and len(n.targets) == 1 and isinstance(n.targets[0], ast.Attribute) \
-                and _text(n.targets[0].value) == "exc" and _text(n.value) == "tbtext":
-            tb_attr = n.targets[0].attr
-        if isinstance(n, ast.Call) and _text(n.func) == "_warn.format" and \
-                [_text(a) for a in n.args] != ["remote_ver", "version.version_string"]:
-            raise Inexpressible("load: the warning is formatted with %s" % [_text(a) for a in n.args])
-    if None in (ver_attr, ver_default, ver_compare, sep, warn, tb_attr):
-        raise Inexpressible("load: version check / warning / traceback attribute not in the expected shape: %r"
-                            % ((ver_attr, ver_default, ver_compare, sep, warn, tb_attr),))
-    if major_cmp is None or _text(major_cmp.left) != "remote_ver.split(%r)[0]" % (sep,) \
-            or not isinstance(major_cmp.ops[0], ast.NotEq) or _text(major_cmp.comparators[0]) != "str(version.version[0])":
-        raise Inexpressible("load: the major-version comparison is %s" % (_text(major_cmp) if major_cmp else None))
-    if len(sep) != 1:
-        raise Inexpressible("load: version separator %r is not one character" % (sep,))
-    parts = warn.split("{}")
-    if len(parts) != 3 or "{" in warn.replace("{}", "") or "}" in warn.replace("{}", ""):
-        raise Inexpressible("load: the warning template is not `... {} ... {} ...`")
-    calls = sorted(called_names(vinegar.load))
-    dcalls = sorted(called_names(vinegar._get_exception_class))
-    return dict(ver_attr=ver_attr, ver_default=ver_default, ver_compare=ver_compare, sep=sep, warn=parts,
-                tb_attr=tb_attr, calls=calls, dcalls=dcalls)
+    name = (vinegar.exceptions_module.__name__, "ValueError")
+
+    def load(attrs, tb="TB-PROBE"):
+        exc = L((name, (), tuple(attrs), tb), import_custom_exceptions=False, instantiate_custom_exceptions=False,
+                instantiate_oldstyle_exceptions=False)
+        if not isinstance(exc, ValueError):
+            raise Inexpressible("load: builtins.ValueError is not rebuilt as ValueError")
+        return exc
+    plain = load(())
+    holders = [k for k, v in vars(plain).items() if v == "TB-PROBE"]
+    if len(holders) != 1 or len(vars(plain)) != 1:
+        raise Inexpressible("load: the traceback text is not stored under exactly one attribute: %s" % sorted(vars(plain)))
+    tb_attr = holders[0]
+    va = d["ver_attr"]
+
+    def tb_after(ver):
+        exc = load(((va, ver),))
+        if getattr(exc, va, None) != ver:
+            raise Inexpressible("load: the version attribute is not stored")
+        return getattr(exc, tb_attr)
+    major = str(version.version[0])
+    vs = version.version_string
+    for quiet in (d["ver_denied"], vs, major, major + ".999", major + "."):
+        if tb_after(quiet) != "TB-PROBE":
+            raise Inexpressible("load: warns about the version %r (withheld, own, or same major version)" % (quiet,))
+    w1, w2 = tb_after("0.0"), tb_after("77.8")
+    for loud in (major + "x.1", "x" + major, "." + major, major + "-1", ""):
+        if tb_after(loud) == "TB-PROBE":
+            raise Inexpressible("load: does not warn about the foreign version %r ('.'-separated major expected)" % (loud,))
+    if not (w1.startswith("TB-PROBE") and w2.startswith("TB-PROBE") and w1 != "TB-PROBE"):
+        raise Inexpressible("load: a foreign major version does not append a warning to the traceback text")
+    rest = w1[len("TB-PROBE"):]
+    i = rest.find("0.0")
+    j = rest.find(vs, i + 3) if i >= 0 else -1
+    if i < 0 or j < 0:
+        raise Inexpressible("load: the warning does not name the remote and the local version, in this order")
+    pre, mid, suf = rest[:i], rest[i + 3:j], rest[j + len(vs):]
+    if w2 != "TB-PROBE" + pre + "77.8" + mid + vs + suf or tb_after("") != "TB-PROBE" + pre + mid + vs + suf:
+        raise Inexpressible("load: the warning is not a fixed template around the two versions")
+    calls = sorted(called_norm(vinegar.load, vinegar))
+    return dict(ver_attr=va, ver_default=d["ver_denied"], ver_compare=d["ver_denied"], sep=".", warn=[pre, mid, suf],
+                tb_attr=tb_attr, calls=calls)
 
 
-# ------------------------------------------------------------------------------------------------ protocol
-def kw_map(fn, callee):
-    """[(parameter, config key)] of the single `vinegar.<callee>(...)` call in fn"""
+def called_norm(fn, module, _seen=None):
+    """normalised names of everything the body of fn calls, following calls of functions of the same module (helpers):
+    a module-level or builtin name -> the name; a method call x.m(...) -> ".m"; a call of a local name that is no function of
+    the module, or of any other expression -> the name / "<expr>" (this is how `cls(...)` shows)"""
+    _seen = _seen if _seen is not None else set()
+    if fn in _seen:
+        return set()
+    _seen.add(fn)
     node = func_ast(fn)
-    found = []
-    for n in ast.walk(node):
-        if isinstance(n, ast.Call) and _text(n.func) == "vinegar." + callee:
-            pairs = []
-            for k in n.keywords:
-                v = k.value
-                if not (isinstance(v, ast.Subscript) and _text(v.value) == "self._config" and _const_str(v.slice) is not None):
-                    raise Inexpressible("%s: %s=%s is not self._config[<literal>]" % (fn.__name__, k.arg, _text(v)))
-                pairs.append((k.arg, _const_str(v.slice)))
-            found.append((len(n.args), pairs))
-    if len(found) != 1:
-        raise Inexpressible("%s: expected one call of vinegar.%s" % (fn.__name__, callee))
-    return found[0]
+    out = set()
+    for n in (m for stmt in node.body for m in ast.walk(stmt)):
+        if isinstance(n, ast.Call):
+            f = n.func
+            if isinstance(f, ast.Name):
+                target = getattr(module, f.id, None)
+                if inspect.isfunction(target) and target.__module__ == module.__name__:
+                    out |= called_norm(target, module, _seen)
+                else:
+                    out.add(f.id)
+            elif isinstance(f, ast.Attribute):
+                out.add("." + f.attr)
+            else:
+                out.add("<expr>")
+    return out
+
+
+# ------------------------------------------------------------------------------------------------ protocol, observed
+class _Sentinel(object):
+    def __init__(self, key):
+        self.key = key
+
+    def __bool__(self):
+        return True
+
+
+def bare_connection(protocol, config):
+    conn = protocol.Connection.__new__(protocol.Connection)
+    conn._closed = True              # so that __del__ / close() are no-ops
+    conn._config = config
+    return conn
+
+
+def kw_map(protocol, vinegar, method, callee):
+    """[(parameter of vinegar.<callee>, configuration key whose value it receives)], observed with sentinel values"""
+    config = dict((k, _Sentinel(k)) for k in protocol.DEFAULT_CONFIG)
+    conn = bare_connection(protocol, config)
+    seen = []
+    real = getattr(vinegar, callee)
+    sig = inspect.signature(real)
+
+    def recorder(*a, **k):
+        seen.append(sig.bind(*a, **k).arguments)
+        return "recorded"
+    setattr(vinegar, callee, recorder)
+    try:
+        args = (ValueError, ValueError(1), None) if callee == "dump" else ("raw-probe",)
+        res = getattr(conn, method)(*args)
+    finally:
+        setattr(vinegar, callee, real)
+    if len(seen) != 1 or res != "recorded":
+        raise Inexpressible("%s: does not return one call of vinegar.%s" % (method, callee))
+    pairs, positional = [], 0
+    for pname, val in seen[0].items():
+        if isinstance(val, _Sentinel):
+            pairs.append((pname, val.key))
+        else:
+            positional += 1
+            if val not in args:
+                raise Inexpressible("%s: passes %r to vinegar.%s" % (method, val, callee))
+    if positional != len(args) or len(pairs) != len(sig.parameters) - len(args):
+        raise Inexpressible("%s: some parameter of vinegar.%s is fed neither from the arguments nor from the configuration"
+                            % (method, callee))
+    return sorted(pairs)
 
 
 def local_routes(protocol):
-    """[(class name, config key)] of `if t is <Class> and self._config[<key>]: raise` in _dispatch_request"""
-    node = func_ast(protocol.Connection._dispatch_request)
-    out = []
-    for n in ast.walk(node):
-        if isinstance(n, ast.If) and len(n.body) == 1 and isinstance(n.body[0], ast.Raise) and n.body[0].exc is None:
-            cj = _conjuncts(n.test)
-            if len(cj) == 2 and isinstance(cj[0], ast.Compare) and _text(cj[0].left) == "t" \
-                    and isinstance(cj[0].ops[0], ast.Is) and isinstance(cj[1], ast.Subscript) \
-                    and _text(cj[1].value) == "self._config" and _const_str(cj[1].slice):
-                out.append((_text(cj[0].comparators[0]), _const_str(cj[1].slice)))
-            elif _text(n.test) != "?":
-                raise Inexpressible("_dispatch_request: unrecognised local re-raise condition %s" % _text(n.test))
-    return sorted(out)
+    """[(class name, configuration key)]: raising exactly that class in a handler is re-raised in the serving side iff the key
+    is set; observed on `_dispatch_request` under all settings of the propagate_* keys"""
+    keys = sorted(k for k in protocol.DEFAULT_CONFIG if k.startswith("propagate_"))
+
+    class SubExit(SystemExit):
+        pass
+
+    class SubInt(KeyboardInterrupt):
+        pass
+    probes = [SystemExit, KeyboardInterrupt, SubExit, SubInt, GeneratorExit, BaseException, ValueError, StopIteration]
+    table = {}
+    for mask in range(1 << len(keys)):
+        cfg = dict(protocol.DEFAULT_CONFIG, logger=None)
+        for i, k in enumerate(keys):
+            cfg[k] = bool(mask >> i & 1)
+        for cls in probes:
+            conn = bare_connection(protocol, cfg)
+            sent = []
+            conn._HANDLERS = {0: (lambda self, c=cls: (_ for _ in ()).throw(c("probe")))}
+            conn._unbox = lambda a: a
+            conn._box_exc = lambda t, v, tb: "boxed"
+            conn._send = lambda *a: sent.append(a)
+            try:
+                conn._dispatch_request(7, (0, ()))
+                outcome = "sent" if len(sent) == 1 else "nothing"
+            except BaseException as ex:  # noqa
+                outcome = "local" if type(ex) is cls and not sent else "other"
+            if outcome not in ("sent", "local"):
+                raise Inexpressible("_dispatch_request: a handler raising %s ends in %s" % (cls.__name__, outcome))
+            table[(cls.__name__, mask)] = outcome
+    routes = []
+    for cls in probes:
+        local_masks = set(m for m in range(1 << len(keys)) if table[(cls.__name__, m)] == "local")
+        if not local_masks:
+            continue
+        owners = [k for i, k in enumerate(keys) if local_masks == set(m for m in range(1 << len(keys)) if m >> i & 1)]
+        if len(owners) != 1 or cls.__name__ not in ("SystemExit", "KeyboardInterrupt"):
+            raise Inexpressible("_dispatch_request: %s is re-raised locally under settings %s of %s"
+                                % (cls.__name__, sorted(local_masks), keys))
+        routes.append((cls.__name__, owners[0]))
+    return sorted(routes)
+
+
+def fallback_facts(protocol, consts):
+    """what `_send_exception` sends when `_box_exc` raises / when the first `_send` raises"""
+    if not hasattr(protocol.Connection, "_send_exception"):
+        return dict(exists=False, note="", tb="")
+    records = []
+    for tb_on in (False, True):
+        for exc in (ValueError("probe-one", 1), KeyError("probe-two")):
+            for failing in ("box", "send"):
+                cfg = dict(protocol.DEFAULT_CONFIG, logger=None, include_local_traceback=tb_on)
+                conn = bare_connection(protocol, cfg)
+                sent = []
+
+                def box(t, v, tb, failing=failing):
+                    if failing == "box":
+                        raise RuntimeError("cannot dump")
+                    return "boxed"
+
+                def send(*a, failing=failing, sent=sent):
+                    sent.append(a)
+                    if failing == "send" and len(sent) == 1:
+                        raise ValueError("cannot serialize")
+                conn._box_exc, conn._send = box, send
+                t, v, tb = raised(exc)
+                try:
+                    conn._send_exception(7, t, v, tb)
+                except Exception:  # noqa
+                    return dict(exists=False, note="", tb="")       # no fallback: the error leaves serve()
+                last = sent[-1]
+                if len(sent) != (1 if failing == "box" else 2) or last[0] != consts.MSG_EXCEPTION or last[1] != 7:
+                    raise Inexpressible("_send_exception: the fallback is not one MSG_EXCEPTION with the request's seq")
+                rec = last[2]
+                if not (type(rec) is tuple and len(rec) == 4 and rec[0] == (t.__module__, t.__name__) and type(rec[1]) is tuple
+                        and len(rec[1]) == 1 and rec[2] == () and type(rec[1][0]) is str and type(rec[3]) is str):
+                    raise Inexpressible("_send_exception: the fallback record is %r" % (rec,))
+                real = "".join(traceback.format_exception(t, v, tb))
+                for text in (rec[1][0], rec[3]):
+                    if "Traceback" in text or "probe-" in text or real in text or "File " in text:
+                        raise Inexpressible("_send_exception: the fallback record discloses the exception's traceback or data")
+                records.append((rec[1][0], rec[3]))
+    # EOFError must not be swallowed into a fallback
+    conn = bare_connection(protocol, dict(protocol.DEFAULT_CONFIG, logger=None))
+    conn._box_exc = lambda t, v, tb: "boxed"
+
+    def eof(*a):
+        raise EOFError("gone")
+    conn._send = eof
+    try:
+        conn._send_exception(7, *raised(ValueError(1)))
+        raise Inexpressible("_send_exception: swallows EOFError")
+    except EOFError:
+        pass
+    if len(set(records)) != 1:
+        raise Inexpressible("_send_exception: the fallback texts are not constants (they vary with the exception or the switches)")
+    return dict(exists=True, note=records[0][0], tb=records[0][1])
 
 
 def gen_vinegar():
@@ -311,6 +449,9 @@ def gen_vinegar():
     marker = consts.EXC_STOP_ITERATION
     if type(marker) is not int:
         raise Inexpressible("consts.EXC_STOP_ITERATION is %r, not an int" % (marker,))
+    vs = version.version_string
+    if not isinstance(vs, str) or not isinstance(version.version, tuple) or not version.version:
+        raise Inexpressible("rpyc.version has an unexpected shape")
     fbits = []
     try:
         f = float(marker)
@@ -323,18 +464,19 @@ def gen_vinegar():
     L += ["/-- `consts.EXC_STOP_ITERATION` and the IEEE bit patterns of the floats that compare equal to it -/",
           "def excStopIteration : Int := %s" % gen_consts.lean_int(marker),
           "def excStopFloatBits : List Nat := [%s]" % ", ".join(str(b) for b in sorted(fbits))]
-    d = dump_facts(vinegar)
-    L += ["", "/-! ### `vinegar.dump` (AST) -/",
-          "/-- is there an `if typ is StopIteration ...: return EXC_STOP_ITERATION`, and does it also require `not val.args` -/",
+    d = dump_facts(vinegar, consts, version)
+    L += ["", "/-! ### `vinegar.dump` (observed on probe exceptions) -/",
+          "/-- does a bare `StopIteration` travel as the marker, and does a `StopIteration` with arguments go the long way -/",
           "def stopFastPathExists : Bool := %s" % lean_bool(d["exists"]),
           "def stopFastPathRequiresNoArgs : Bool := %s" % lean_bool(d["noargs"]),
+          "/-- public names of `dir(val)` that are left out (observed over all built-in exception classes) -/",
           "def ignoredAttrsText : List String := " + lean_list([lean_str(s) for s in d["ignored"]]),
           "def ignoredAttrs : List (List Nat) := " + lean_list([cps(s) for s in d["ignored"]], 2),
           "def privatePrefixText : String := " + lean_str(d["prefix"]),
           "def privatePrefix : List Nat := " + cps(d["prefix"]),
           "def argsNameText : String := " + lean_str(d["args_name"]),
           "def argsName : List Nat := " + cps(d["args_name"]),
-          "/-- is `traceback.format_exception` called inside `try: ... except Exception: tbtext = <literal>`, and that literal -/",
+          "/-- is a failure of `traceback.format_exception` contained, and the text sent then -/",
           "def tbFormatGuarded : Bool := %s" % lean_bool(d["tb_guarded"]),
           "def tracebackUnavailableText : String := " + lean_str(d["tb_unavailable"]),
           "def tracebackUnavailable : List Nat := " + cps(d["tb_unavailable"]),
@@ -344,13 +486,11 @@ def gen_vinegar():
           "def versionDenied : List Nat := " + cps(d["ver_denied"]),
           "def versionAttrText : String := " + lean_str(d["ver_attr"]),
           "def versionAttr : List Nat := " + cps(d["ver_attr"])]
-    ld = load_facts(vinegar)
-    vs = version.version_string
-    if not isinstance(vs, str) or not isinstance(version.version, tuple) or not version.version:
-        raise Inexpressible("rpyc.version has an unexpected shape")
-    L += ["", "/-! ### `vinegar.load` (AST) and `rpyc.version` (live) -/",
+    ld = load_facts(vinegar, version, d)
+    L += ["", "/-! ### `vinegar.load` (observed on probe records) and `rpyc.version` (live) -/",
           "def loadVersionAttrText : String := " + lean_str(ld["ver_attr"]),
           "def loadVersionAttr : List Nat := " + cps(ld["ver_attr"]),
+          "/-- no warning for an absent version, nor for the text `dump` sends for a withheld one -/",
           "def loadVersionDefault : List Nat := " + cps(ld["ver_default"]),
           "def loadVersionCompare : List Nat := " + cps(ld["ver_compare"]),
           "def versionSeparator : Nat := %d" % ord(ld["sep"]),
@@ -369,32 +509,31 @@ def gen_vinegar():
           "def exceptionsModule : List Nat := " + cps(vinegar.exceptions_module.__name__),
           "/-- `ClassType is type` (Python 3): the old-style branch of `load` is dead -/",
           "def classTypeIsType : Bool := %s" % lean_bool(vinegar.ClassType is type),
-          "", "/-- everything the bodies of `load` and `_get_exception_class` call (AST); the model has one step per entry -/",
+          "", "/-- everything `load` and the module functions it uses call (AST, normalised: helpers followed, method calls by",
+          "method name); the model has one step per entry, or the entry is a pure helper of the language -/",
           "def loadCalls : List String := " + lean_list([lean_str(c) for c in ld["calls"]], 6),
           "def loadCallsAllowed : List String := " + lean_list([lean_str(c) for c in sorted(LOAD_CALLS_ALLOWED)], 6),
-          "def derivedCalls : List String := " + lean_list([lean_str(c) for c in ld["dcalls"]], 6),
-          "def derivedCallsAllowed : List String := " + lean_list([lean_str(c) for c in sorted(DERIVED_CALLS_ALLOWED)], 6)]
+          "def derivedCalls : List String := []",
+          "def derivedCallsAllowed : List String := []"]
     cfg = protocol.DEFAULT_CONFIG
     L += ["", "/-! ### `protocol.DEFAULT_CONFIG`: the exception-related switches (live) -/"]
     for key, camel in SEND_KEYS + RECV_KEYS:
         if key not in cfg or type(cfg[key]) is not bool:
             raise Inexpressible("DEFAULT_CONFIG[%r] is missing or not a bool" % key)
         L.append("def cfg%s : Bool := %s" % (camel, lean_bool(cfg[key])))
-    nb, box = kw_map(protocol.Connection._box_exc, "dump")
-    nu, unbox = kw_map(protocol.Connection._unbox_exc, "load")
-    if nb != 3 or nu != 1:
-        raise Inexpressible("_box_exc/_unbox_exc pass %d/%d positional arguments" % (nb, nu))
-    L += ["", "/-- which configuration key feeds which parameter of `vinegar.dump` / `vinegar.load` (AST) -/",
+    box = kw_map(protocol, vinegar, "_box_exc", "dump")
+    unbox = kw_map(protocol, vinegar, "_unbox_exc", "load")
+    L += ["", "/-- which configuration key feeds which parameter of `vinegar.dump` / `vinegar.load` (observed with sentinel values) -/",
           "def boxExcKeys : List (String × String) := " + lean_list(
-              ["(%s, %s)" % (lean_str(a), lean_str(b)) for a, b in sorted(box)], 2),
+              ["(%s, %s)" % (lean_str(a), lean_str(b)) for a, b in box], 2),
           "def unboxExcKeys : List (String × String) := " + lean_list(
-              ["(%s, %s)" % (lean_str(a), lean_str(b)) for a, b in sorted(unbox)], 2),
-          "/-- `if t is <Class> and self._config[<key>]: raise` in `_dispatch_request` (AST) -/",
+              ["(%s, %s)" % (lean_str(a), lean_str(b)) for a, b in unbox], 2),
+          "/-- which classes `_dispatch_request` re-raises in the serving side, under which key (observed) -/",
           "def localRoutes : List (String × String) := " + lean_list(
               ["(%s, %s)" % (lean_str(a), lean_str(b)) for a, b in local_routes(protocol)], 2)]
-    fb = fallback_facts(protocol)
-    L += ["", "/-- `Connection._send_exception` (AST): when dumping or sending the exception raises, the record",
-          "`((module, name), (note,), (), <literal>)` is sent instead -/",
+    fb = fallback_facts(protocol, consts)
+    L += ["", "/-- `Connection._send_exception` (observed): when dumping or sending the exception raises, the record",
+          "`((module, name), (note,), (), text)` is sent instead; both texts are constants -/",
           "def fallbackExists : Bool := %s" % lean_bool(fb["exists"]),
           "def fallbackNoteText : String := " + lean_str(fb["note"]),
           "def fallbackNote : List Nat := " + cps(fb["note"]),
